@@ -447,12 +447,21 @@ fn run_lane(
             }))
         })
         .collect();
-    let watchdog = Duration::from_secs(check.watchdog_s(ctx));
+    // The budget is for the verdict lane; instrumented lanes run the same case several times slower
+    // (a case that needs 8 s natively must not become a "hang" under ASan or valgrind).
+    let lane_factor: u64 = match lane {
+        "asan" => 6,
+        "tsan" => 12,
+        "memcheck" => 50,
+        "chk" => 4,
+        _ => 1,
+    };
+    let watchdog = Duration::from_secs(check.watchdog_s(ctx) * lane_factor);
     // Once several hangs have been confirmed the verdict of the run is settled; the remaining cases
     // are still run, but a case that exceeds a much shorter budget is then cut off and only counted
     // (inconclusive), so that a tree that hangs on hundreds of cases does not take hours to judge.
     const CONFIRMED_HANGS_FOR_SHORT_BUDGET: u64 = 6;
-    let short_budget = Duration::from_secs(check.watchdog_s(ctx).min(2));
+    let short_budget = Duration::from_secs(check.watchdog_s(ctx).min(2) * lane_factor);
     let confirmed_hangs = Arc::new(std::sync::atomic::AtomicU64::new(0));
     let wd_hangs = confirmed_hangs.clone();
     // watchdog thread
